@@ -226,7 +226,7 @@ CHECKS["C03"] = dict(
          "points StaticSchema::EncodeJson/DecodeJson are interpreted with real nlohmann::json values built from a symbolic area: "
          "bytes == canonical bytes, decoded JSON == the value.",
     design_ref="DESIGN.md §4 C03",
-    note="Outside the claim: rpc/service headers (compile-only as part of generation), Endianess::Big, NaN payloads, Optional of "
+    note="Outside the claim: rpc broker/client/server headers (compile-only as part of generation; the rpc envelope structs are inside), Endianess::Big, NaN payloads, Optional of "
          "a container through JSON. Natives: operator new/delete, out-of-line basic_string members, red-black tree insertion "
          "(no rebalancing) / increment, memcmp/strlen, throw helpers. Counterexamples are recompiled natively with clang++ and g++ and run.",
     technique="symbolic execution of clang's LLVM IR of the generated C++ typed codec (own interpreter) + SMT validity vs. canonical bytes",
